@@ -2664,6 +2664,14 @@ fn unpack_package(tarball: &File, unpack_dir: &Path) -> Result<(), UnpackError> 
             });
         }
 
+        // Crates published on crates.io never contain links. Do not unpack
+        // them: a symlink to a sibling directory would let later entries of the
+        // archive write into another crate's sources through it.
+        let entry_type = entry.header().entry_type();
+        if entry_type.is_symlink() || entry_type.is_hard_link() {
+            continue;
+        }
+
         // Never unpack a `.cargo-ok` marker shipped inside the archive: the
         // marker must only appear once the whole archive has been unpacked.
         if entry_path.file_name().map_or(false, |name| name == CARGO_OK_FILE) {
